@@ -53,6 +53,9 @@ def run_check(prop, spec, tier, seed, replay=None):
         print('HARNESS-FAILURE: %s' % e)
         return 2
     build_s = time.time() - t0
+    degraded = sorted('%s:%s' % k for k in core.DEGRADED if k in bins)
+    if degraded:
+        print('NOTE: built without access to private library state (structural walkers off, public-API oracles only): %s' % ', '.join(degraded))
 
     if replay:
         return do_replay(prop, spec, bins, replay, logdir)
@@ -212,6 +215,8 @@ def run_check(prop, spec, tier, seed, replay=None):
         new_viol.append((key, rp, msg))
 
     floors = tier_val(spec.get('floors', {}), tier) or {}
+    if degraded:
+        floors = {k: v for k, v in floors.items() if k in ('ops', 'cases')}    # walker counters are necessarily 0 in the degraded build
     floor_fail = []
     allstats = dict(col.stats)
     allstats.update({k: v for k, v in col.maxs.items() if k not in allstats})
@@ -229,7 +234,7 @@ def run_check(prop, spec, tier, seed, replay=None):
                builds=sorted(set('%s:%s' % (j['variant'], j['harness']) for j in jobs)),
                jobs=[dict(name=j['name'], variant=j['variant'], mode=j['mode'], cases=tier_val(j.get('cases', 1), tier)) for j in jobs],
                sanitizer=dict(tsan_report_blocks=col.tsan_reports, tsan_distinct=len(col.tsan_distinct), tsan_unconfirmed_one_off_reports=unconfirmed),
-               known_findings_reproduced=known_hits, excluded_triggers=[k for k, _ in findings],
+               degraded_no_private_access=degraded, known_findings_reproduced=known_hits, excluded_triggers=[k for k, _ in findings],
                inconclusive=inconclusive, violations_found=[dict(key=k, replay=r, msg=m[:300]) for k, r, m in new_viol])
     if spec.get('exhaustive'):
         cov['exhaustive'] = bool(tier_val(spec['exhaustive'], tier))
